@@ -149,3 +149,9 @@ for t in TYPS:
           replace=['__get_mdays', '__get_mcnt', '__get_isowk', '__get_ydays', 'dt_conv_to_daisy', 'dt_conv_to_ymd', 'dt_conv_to_ymcw', 'dt_conv_to_ywd', 'dt_conv_to_yd',
                    '__daisy_to_ldn', '__daisy_to_mdn'] + UNR('__daisy_to_jdn', 'dt_conv_to_bizda', 'dt_conv_to_ummulqura', '__bizda_fixup', '__ummulqura_fixup'),
           solvers=SV, timeout=600, tier='quick' if (t, n) in QUICK_PAIRS else 'thorough', sweep={'in_u': 'RND'})
+
+# field getters on the sum type (contracts in contracts/date-core.public.h)
+for t in ('DT_YMD', 'DT_YMCW', 'DT_YWD', 'DT_DAISY'):
+    G('dc.dt_get_wday.' + t[3:], 'date-core', 'dt_get_wday', ['C01'], ins=[(U, 'in_typ'), ('uint32_t', 'in_u')], fix={'in_typ': t},
+      setup='struct dt_d_s d = {DT_DUNK}; d.typ = (dt_dtyp_t)in_typ; d.u = in_u;', call='dt_get_wday(d)', ret='dt_dow_t',
+      replace=['__ymd_get_wday', '__daisy_get_wday'] + UNR('__bizda_get_wday'), solvers=SV, sweep={'in_u': 'RND'})
